@@ -1389,10 +1389,8 @@ fn apply<S: AdjSut>(sut: &mut S, cx: &mut Ctx, op: &Op, kind: &'static str) -> R
     } else {
         // C06: the model only drives generation here; a model disagreement is C01/C02's
         // business, so the run is abandoned (and counted) instead of reported
-        if check_obs(&cx.m, &obs, &plan).is_err() {
-            cx.acc.probe("visit_run_discarded_model_mismatch");
-            return Err(Exec { violation: None, nontrivial: false });
-        }
+        // the invariant is self-consistency of the views, so it is evaluated first and does
+        // not depend on the model being right
         let big = cx.m.n_live() > 14;
         if !big || cx.obs_rng.chance(1, 4) {
             let seed = cx.cfg.obs_seed ^ (cx.step as u64);
@@ -1403,6 +1401,10 @@ fn apply<S: AdjSut>(sut: &mut S, cx: &mut Ctx, op: &Op, kind: &'static str) -> R
             }
             cx.acc.probe_if(!cx.m.vacant_nodes().is_empty(), "visit_checked_state_with_node_vacancies");
             cx.acc.probe_if(!cx.m.vacant_edges().is_empty(), "visit_checked_state_with_edge_vacancies");
+        }
+        if check_obs(&cx.m, &obs, &plan).is_err() {
+            cx.acc.probe("visit_run_discarded_model_mismatch");
+            return Err(Exec { violation: None, nontrivial: false });
         }
     }
     cx.acc.state(cx.m.hash());
